@@ -403,7 +403,7 @@ def factory_run(chk):
     seen = set()
     for o in outs:
         chk.count()
-        if o.kind != "normal":
+        if o.kind not in ("normal", "continue"):
             continue
         live = set(not_inlined_calls(o.path.events))
         calls = [e[1] for i, e in enumerate(o.path.events) if i in live and e[0] == "call" and e[1][1][0] == "attr" and e[1][1][1] == SELF]
